@@ -6,7 +6,7 @@ import shutil
 import tempfile
 import threading
 
-from verif import build, proc
+from verif import build, core, proc
 from verif.gen import tracegen
 from verif.oracles import paje
 
@@ -278,9 +278,105 @@ DIRECTED_MPI = [
 ]
 
 
+def corruptions(lines):
+    """Corrupted copies of a clean trace, each with the rule the validator must answer: (name, expected rule, lines)."""
+    defs, start, _ = paje.parse_header(lines)
+    ids = {name: i for i, (name, _f) in defs.items()}
+    body = list(range(start, len(lines)))
+
+    def first(evname, pred=lambda t: True, after=0):
+        for i in body:
+            t = lines[i].split()
+            if i >= after and t and t[0] == ids.get(evname) and pred(t):
+                return i
+        return None
+    out = []
+    # 1. swap two timestamped lines of different dates
+    a = first("PajePushState")
+    if a is not None:
+        for j in range(len(lines) - 1, a, -1):
+            t = lines[j].split()
+            if t and t[0] in (ids["PajePushState"], ids["PajePopState"]) and float(t[1]) > float(lines[a].split()[1]):
+                l2 = list(lines)
+                l2[a], l2[j] = l2[j], l2[a]
+                out.append(("swap-two-lines", "TIME_BACKWARDS", l2))
+                break
+    # 2. drop a type definition / a value definition / a container creation
+    i = first("PajeDefineStateType")
+    if i is not None:
+        out.append(("drop-state-type-definition", "UNDEF_TYPE", lines[:i] + lines[i + 1:]))
+    i = first("PajeDefineEntityValue", lambda t: any(l.split()[:1] == [ids["PajePushState"]] and l.split()[-1] == t[1] for l in lines))
+    if i is not None:
+        out.append(("drop-value-definition", "UNDEF_VALUE", lines[:i] + lines[i + 1:]))
+    i = first("PajeCreateContainer", lambda t: any(l.split()[:1] == [ids["PajePushState"]] and l.split()[3] == t[2] for l in lines))
+    if i is not None:
+        out.append(("drop-container-creation", "UNDEF_CONTAINER", lines[:i] + lines[i + 1:]))
+    # 3. one more pop right after the pop that empties a stack
+    depth = {}
+    for i in body:
+        t = lines[i].split()
+        if t and t[0] == ids["PajePushState"]:
+            depth[(t[2], t[3])] = depth.get((t[2], t[3]), 0) + 1
+        elif t and t[0] == ids["PajePopState"]:
+            depth[(t[2], t[3])] -= 1
+            if depth[(t[2], t[3])] == 0:
+                out.append(("add-a-pop", "POP_EMPTY", lines[:i + 1] + [lines[i]] + lines[i + 1:]))
+                break
+    # 4. move the destruction of a container before its last event
+    i = first("PajeDestroyContainer")
+    if i is not None:
+        cid = lines[i].split()[3]
+        uses = [j for j in body if j < i and len(lines[j].split()) > 3 and lines[j].split()[0] in (ids["PajePushState"], ids["PajePopState"])
+                and lines[j].split()[3] == cid]
+        if uses:
+            j = uses[-1]
+            t = lines[i].split()
+            t[1] = lines[j].split()[1]
+            out.append(("destroy-before-last-use", "USE_AFTER_DESTROY", lines[:j] + [" ".join(t) + "\n"] + lines[j:i] + lines[i + 1:]))
+    # 5. a date 1e-6 (the precision of the trace) below the date of the previous timestamped line
+    timed = [j for j in body if lines[j].split() and lines[j].split()[0] not in
+             [ids[n] for n in ids if n.startswith("PajeDefine")]]
+    for k in range(1, len(timed)):
+        prev, cur = lines[timed[k - 1]].split(), lines[timed[k]].split()
+        if cur[0] == ids["PajePopState"] and float(prev[1]) > 0:
+            cur[1] = "%.6f" % (float(prev[1]) - 1e-6)
+            out.append(("date-minus-1e-6", "TIME_BACKWARDS", lines[:timed[k]] + [" ".join(cur) + "\n"] + lines[timed[k] + 1:]))
+            break
+    return out
+
+
+SELFTEST = (D_PLAT2 + "script 0 h0 1 0 -1 0\nsleep 1\nexec 1000000000.0 -\nput mb 1000000.0 - 5.0\nsleep 1\n"
+            "script 1 h1 1 0 -1 0\nget mb 5.0\nsleep 1\nexec 500000000.0 -\nscript 2 h1 1 0 2.5 0\nsleep 1\nsleep 5\nend\n", ["tracing/actor:yes"])
+
+
+def oracle_selftest(ctx, r):
+    """The validator must accept one clean real trace and answer each corruption of it with the expected rule."""
+    exe = build.harness("trace.cpp", "hooks")
+    trace = r.path("selftest")
+    res = proc.run([exe, BASE_LOG, "--cfg=tracing:yes", "--cfg=tracing/filename:" + trace] + ["--cfg=" + o for o in SELFTEST[1]],
+                   stdin=SELFTEST[0], timeout=300)
+    if res.timed_out:
+        ctx.inconclusive("selftest watchdog")
+        return
+    if res.rc != 0 or not os.path.exists(trace):
+        raise core.HarnessFailure("oracle self-test: the reference scenario did not run: " + res.brief())
+    rep, lines = paje.validate_file(trace)
+    if rep.violations or rep.nevents < 30:
+        raise core.HarnessFailure("oracle self-test: the reference trace is not clean: %r" % rep.violations[:3])
+    cs = corruptions(lines)
+    if len(cs) < 7:
+        raise core.HarnessFailure("oracle self-test: only %d corruptions could be built: %r" % (len(cs), [c[0] for c in cs]))
+    for name, rule, l2 in cs:
+        rep2 = paje.validate_lines(l2)
+        if not any(v.rule == rule for v in rep2.violations):
+            raise core.HarnessFailure("oracle self-test: corruption %s not answered with %s (got %r)" % (name, rule, rep2.violations[:3]))
+        ctx.count("selftest.corruptions_detected")
+
+
 def run(ctx):
     r = Runner(ctx)
     try:
+        oracle_selftest(ctx, r)
         for fl in ("hooks", "asan"):
             build.harness("trace.cpp", fl)
         build.smpicc("mpi/tracemix.c", "hooks")
